@@ -115,7 +115,12 @@ def step (cfg : Cfg) (_ : Unit) (line : String) : Unit × String :=
         let fl := match Hv.Routing.gapOrOverlap servers N with
           | some _ => if cfg.validatesRanges then "" else "\t#F:C20-routing-unvalidated"
           | none => ""
-        ((), ",".intercalate cells ++ fl)
+        let firstGap := ((List.range N).map (· + 1)).find? fun i => (Hv.Routing.route servers i).isNone
+        let call := match firstGap with
+          | some _ => if cfg.unroutedIsError then " call=err" else " call=panic"
+          | none => ""
+        let fl2 := if firstGap.isSome && !cfg.unroutedIsError then "\t#F:C20-unrouted-island-panics" else ""
+        ((), ",".intercalate cells ++ call ++ fl ++ fl2)
   | ["load", p] =>
     match field p with
     | some p =>
@@ -141,7 +146,7 @@ def run (args : List String) : IO UInt32 := do
   let cfg : Cfg :=
     ⟨tri (arg kv "sdkPlusOne"), tri (arg kv "srvPlusOne"), natArg kv "srvBits", arg kv "hexVerb" == "no",
      natArg kv "cplMin", tri (arg kv "sliceClampsStart"), tri (arg kv "ctorsRejectSlash"),
-     natArg kv "defDepth", natArg kv "defPer", tri (arg kv "routeValidatesRanges"), tri (arg kv "islandCacheKeyedByN")⟩
+     natArg kv "defDepth", natArg kv "defPer", tri (arg kv "routeValidatesRanges"), tri (arg kv "islandCacheKeyedByN"), tri (arg kv "unroutedReturnsError")⟩
   lineLoop (step cfg) ()
   return 0
 
